@@ -8,10 +8,10 @@ from ..runner import run_given
 
 PROPERTY = 'C12'
 RULE = ("Exhaustive over (signed, n_word 1..256, n_frac -8..n_word+8, complex for n_word<=52) under both configured dtype_notation defaults: x.dtype must equal the canonical spelling; "
-        "Fxp(None, dtype=x.dtype) and resize(dtype=x.dtype) reproduce (signed, n_word, n_frac, complex); get_dtype('Q') is the Q/UQ spelling and get_dtype('fxp') the fxp spelling under both defaults and "
+        "Fxp(None, dtype=x.dtype), Fxp(0, dtype=x.dtype) and resize(dtype=x.dtype) reproduce (signed, n_word, n_frac, complex); get_dtype('Q') is the Q/UQ spelling and get_dtype('fxp') the fxp spelling under both defaults and "
         "x.dtype afterwards still follows the configured default; Q/UQ and S/U m.n parse to n_word=m+n whenever m>=0. Hypothesis: random spellings (case flips, explicit '+' in the fraction, S/U/Q/UQ/QU heads, "
         "omitted fraction) must parse to the model's format. Non-trivial = n_frac<0, n_frac>n_word, complex, or n_word>=64; distinct = one per (format, complex, default notation).")
-ASSUMPTIONS = ['objects are built with Fxp(None, ...) (no value) or a complex zero', 'Q notation has no complex suffix; utils.get_sizes_from_dtype (fxp_sum only) is outside the statement']
+ASSUMPTIONS = ['objects are built with Fxp(None, ...) (no value), an integer zero or a complex zero', 'Q notation has no complex suffix; utils.get_sizes_from_dtype (fxp_sum only) is outside the statement']
 EXHAUSTIVE = True
 EXHAUSTIVE_SUBDOMAINS = {'quick': ['all (signed, n_word 1..256, n_frac -8..n_word+8) + complex for n_word<=52, both notation defaults'], 'thorough': ['same, plus 16x more random spellings']}
 REQUIRED_CLASSES = {'nfrac<0': 1000, 'nfrac>nword': 1000, 'complex': 1000, 'wide>=64': 10000, 'spelling': 500}
@@ -66,11 +66,12 @@ def check_fmt(ctx, case):
             y = F(None, dtype=text)
             z = F(None, True, 7, 3) if not (s and w == 7 and f == 3) else F(None, False, 9, 1)
             z.resize(dtype=text)
-            return y, z
+            v = F(0j if c2 else 0, dtype=text)          # the same spelling given together with a (zero) value
+            return y, z, v
         ok, res = ctx.guard(case, mk, sig_prefix='%s/parse-%s/' % (sig, name))
         if not ok:
             return
-        for route, y in zip(('ctor', 'resize'), res):
+        for route, y in zip(('ctor', 'resize', 'ctor-zero-value'), res):
             got = C.fmt_of(y)
             gc = (y.vdtype == complex)
             if got != (bool(s), w, f) or gc != c2:
